@@ -7,6 +7,7 @@ import Mathlib.Tactic.FieldSimp
 import Mathlib.Tactic.Linarith
 import Mathlib.Analysis.Real.Sqrt
 import Mathlib.Analysis.Complex.Exponential
+import Mathlib.MeasureTheory.Integral.IntervalIntegral.Basic
 /-! # C04 — tilt carried as metadata is optically identical to tilt in the OPD
 
 Property theorems only, about the models in Model/Tilt.lean (`Tilt.shift`, first-order `DispersiveTilt.shift`,
@@ -443,6 +444,46 @@ theorem dispersive_on_trace (h1 : (RealLike.ofInt 1 : R) = 1)
   · have : (D / q + 0) * D = D * D / q := by ring
     rw [this]
     exact div_nonneg (mul_self_nonneg _) hs0.le
+
+/-- **Contract of the numerical branches of `DispersiveTilt`** (trace and/or dispersion polynomial of order > 1): the two
+`scipy.optimize.leastsq(…, x0=0)` calls return roots of the residuals the code hands them — both residual functions and the arc-length
+integrand are *generated* from `_dist_cost_func`, `_trace_cost_func`, `_trace_dist_func` — with `scipy.integrate.quad` the integral.
+This is the single trusted fact about the higher-order branches; the oracle checks it numerically on every generated element. -/
+def DispersiveSolved (trace disp : List ℝ) (wl dist x : ℝ) : Prop :=
+  Gen.dispDistResidual polyval disp dist wl = 0 ∧
+  Gen.traceDistResidual (fun f a b => ∫ t in a..b, f t) (Gen.traceDistIntegrand Real.sqrt polyval polyder 1 trace) 0 x dist = 0
+
+/-- **Any-order dispersive displacement, under the solver contract**: the displacement (net of the incoming shift) lies on the trace
+polynomial, the dispersion polynomial maps `dist` to the wavelength, and `dist` is the arc length of the trace from its origin to the
+displacement's abscissa. -/
+theorem dispersive_general_spec (trace disp : List ℝ) (wl dist x xs ys : ℝ) (h : DispersiveSolved trace disp wl dist x) :
+    (Gen.dispersiveTail polyval trace x xs ys).2 - ys = polyval trace ((Gen.dispersiveTail polyval trace x xs ys).1 - xs) ∧
+    polyval disp dist = wl ∧
+    (∫ t in (0 : ℝ)..((Gen.dispersiveTail polyval trace x xs ys).1 - xs), Real.sqrt (1 + polyval (polyder trace) t * polyval (polyder trace) t)) = dist := by
+  obtain ⟨h1, h2⟩ := h
+  simp only [Gen.dispDistResidual, Gen.traceDistResidual, Gen.traceDistIntegrand, sub_eq_zero] at h1 h2
+  simp only [Gen.dispersiveTail, add_sub_cancel_right]
+  exact ⟨trivial, h1.symm, h2.symm⟩
+
+/-- **The first-order closed form is the solution of the general contract**: for `trace=[t0, t1]`, `dispersion=[d0, d1]` the generated
+closed-form branch (`Gen.dispersiveShift1`) returns exactly the tail evaluated at values that make both generated residuals vanish —
+so the analytic and the numerical branches of the code describe the same displacement. -/
+theorem first_order_closed_form_is_solution (t0 t1 d0 d1 wl xs ys : ℝ) (hd0 : d0 ≠ 0) :
+    DispersiveSolved [t0, t1] [d0, d1] wl ((wl - d1) / d0) ((wl - d1) / d0 / Real.sqrt (1 + t0 * t0)) ∧
+    Gen.dispersiveTail polyval [t0, t1] ((wl - d1) / d0 / Real.sqrt (1 + t0 * t0)) xs ys =
+      Gen.dispersiveShift1 Real.sqrt 1 t0 t1 d0 d1 wl xs ys := by
+  have hpos : (0 : ℝ) < 1 + t0 * t0 := by nlinarith [mul_self_nonneg t0]
+  have hq : Real.sqrt (1 + t0 * t0) ≠ 0 := ne_of_gt (Real.sqrt_pos.mpr hpos)
+  refine ⟨⟨?_, ?_⟩, ?_⟩
+  · simp only [Gen.dispDistResidual, polyval, List.foldl, RealLike.ofInt]
+    field_simp; ring
+  · simp only [Gen.traceDistResidual, Gen.traceDistIntegrand, polyval, polyder, List.foldl, List.length, RealLike.ofInt]
+    have hc : ∀ t : ℝ, ((0 : ℤ) : ℝ) * t + (((0 + 1 : ℕ) : ℤ) : ℝ) * t0 = t0 := by intro t; push_cast; ring
+    simp only [hc]
+    rw [intervalIntegral.integral_const, smul_eq_mul, sub_zero]
+    field_simp; ring
+  · simp only [Gen.dispersiveTail, Gen.dispersiveShift1, polyval, List.foldl, RealLike.ofInt]
+    simp
 
 /-- non-vacuity of `hsqrt`: the real square root qualifies -/
 example : ∀ a : ℝ, 0 < a → 0 < Real.sqrt a ∧ Real.sqrt a * Real.sqrt a = a :=
